@@ -58,6 +58,7 @@ class Obligation:
     enumerate: Callable[[str], Iterable] | None = None   # optional finite sub-space (tier -> cases)
     case_timeout: dict = field(default_factory=lambda: {"quick": 20.0, "thorough": 120.0})
     max_shards: int = 16
+    min_cases_per_shard: int = 20                   # expensive cases (sub-interpreters, long schedules) may use fewer
 
 
 class CaseTimeout(BaseException):
